@@ -239,6 +239,22 @@ def const_chain(depth):
     return "\n".join(L) + "\n"
 
 
+def padded_graph(fillers, depth, value, width=2):
+    """`fillers` small functions declared (and called once each) BEFORE a diamond: the
+    helpers of the diamond get high function indices"""
+    L = ["@group(0) @binding(0) var<storage, read_write> data: array<f32, 4>;",
+         "@group(0) @binding(1) var<uniform> aux: vec4<f32>;",
+         "@group(0) @binding(2) var tex: texture_2d<f32>;"]
+    for k in range(fillers):
+        L.append("fn pad%d() -> f32 { return aux.%s; }" % (k, "xyzw"[k % 4]))
+    body = chain(depth, value, width).splitlines()[3:]
+    entry = body[-1]
+    L += body[:-1]
+    pads = " ".join("data[%d] = pad%d();" % (k % 4, k) for k in range(fillers))
+    L.append(entry.replace("{ ", "{ " + pads + " ", 1))
+    return "\n".join(L) + "\n"
+
+
 ERR_FAMILIES = {"err_sparse_group": "NonConsecutiveBindGroups"}
 
 
@@ -255,6 +271,13 @@ def families(tier):
                      ("workgroup_size", [1, 256, 65535, 2 ** 31 - 1])):
         for k in ks:
             F.append(("magnitude_" + kind, k, magnitude(kind, k)))
+    # hundreds of functions: the walk's bookkeeping must not depend on how many there are
+    for fillers in [0, 60, 120, 130, 200, 300]:
+        F.append(("padded_value_diamond", fillers, padded_graph(fillers, 32, True)))
+        F.append(("padded_void_diamond", fillers, padded_graph(fillers, 32, False)))
+    for d in [100, 128, 160, 256]:
+        F.append(("long_value_chain", d, chain(d, True)))
+        F.append(("long_void_diamond", d, chain(d, False, 2)))
     for d in [2, 4, 8, 16, 24, 32, 48, 64]:
         F.append(("override_chain_required", d, override_chain(d, False)))
         F.append(("override_chain_defaulted", d, override_chain(d, True)))
